@@ -52,6 +52,8 @@ func runC19(c *Ctx) {
 	c.guard("R19-dup", func() { c19Dup(c, "R19-dup") })
 	r.Rule("R19-pushsrc", "every move pushed on a board outside the board package derives from that position's own move generator (text may select among generated moves but is never pushed itself)", 5)
 	c.guard("R19-pushsrc", func() { c19PushSrc(c, "R19-pushsrc") })
+	r.Rule("R19-tables", "what the encoder prints the decoder reads back: the letter tables of the FEN writer and reader (pieces, colour, castling, files, ranks) are standard and mutually inverse (rule of C14, re-decided here for the round-trip clause)", 12+12+2+16+8+8+16+8+3)
+	c.guard("R19-tables", func() { r.WithAlias("R14-tables", "R19-tables", func() { c14Tables(c, newInterp(c.P)) }) })
 	r.Rule("R19-counters", "the half-move clock and the full-move number a FEN carries are bounded from above where they are accepted, far enough below the end of int that the increments of a game cannot wrap them", 2)
 	c.guard("R19-counters", func() { c19Counters(c, "R19-counters", -1) })
 	c.guard("R19-err", func() { c19Err(c) })
@@ -123,6 +125,69 @@ func constProv(p *core.Prog, v ssa.Value, mut map[*ssa.Global]bool, seen map[ssa
 		if f := x.Call.StaticCallee(); f != nil && f.Name() == "Encode" && f.Pkg != nil && strings.HasSuffix(f.Pkg.Pkg.Path(), "/fen") {
 			return true, "fen.Encode output"
 		}
+	case *ssa.Extract:
+		// a result of a helper of the repository: what each of its returns puts there
+		call, ok := x.Tuple.(*ssa.Call)
+		if !ok {
+			return false, ""
+		}
+		f := call.Call.StaticCallee()
+		if f == nil || f.Blocks == nil || !p.IsRepoFunc(f) {
+			return false, ""
+		}
+		n := 0
+		for _, b := range f.Blocks {
+			ret, ok := b.Instrs[len(b.Instrs)-1].(*ssa.Return)
+			if !ok || x.Index >= len(ret.Results) {
+				continue
+			}
+			n++
+			if okc, _ := constProv(p, returnedValue(ret, x.Index), mut, seen); !okc {
+				return false, ""
+			}
+		}
+		return n > 0, "constant or encoder output on every return of " + f.Name()
+	case *ssa.Parameter:
+		// a parameter of an unexported function that is only ever called: what its callers pass
+		fn := x.Parent()
+		if fn == nil || fn.Object() == nil || fn.Object().Exported() || fn.Signature.Recv() != nil || fn.Pkg == nil {
+			return false, ""
+		}
+		idx := -1
+		for i, q := range fn.Params {
+			if q == x {
+				idx = i
+			}
+		}
+		n := 0
+		for _, g := range p.AllFuncs {
+			if g.Pkg != fn.Pkg || g.Blocks == nil {
+				continue
+			}
+			for _, b := range g.Blocks {
+				for _, ins := range b.Instrs {
+					if call, ok := ins.(ssa.CallInstruction); ok && call.Common().StaticCallee() == fn {
+						n++
+						if idx < 0 || idx >= len(call.Common().Args) {
+							return false, ""
+						}
+						if okc, _ := constProv(p, call.Common().Args[idx], mut, seen); !okc {
+							return false, ""
+						}
+						continue
+					}
+					// the function used as a value: callers unknown
+					for _, op := range ins.Operands(nil) {
+						if op != nil && *op == ssa.Value(fn) {
+							if call, ok := ins.(ssa.CallInstruction); !ok || call.Common().Value != ssa.Value(fn) {
+								return false, ""
+							}
+						}
+					}
+				}
+			}
+		}
+		return n > 0, "constant or encoder output at every call of " + fn.Name()
 	}
 	return false, ""
 }
@@ -320,6 +385,9 @@ func c19Index(c *Ctx) {
 	r := c.R
 	var fns []*ssa.Function
 	for _, t := range [][3]string{{"pkg/board/fen", "", "Decode"}, {"pkg/board", "", "ParseMove"}, {"pkg/board", "", "ParseSquareStr"}, {"pkg/board/fen", "", "parseCastling"}, {"pkg/board/fen", "", "parseColor"}} {
+		if strings.HasPrefix(t[2], "parse") && t[0] == "pkg/board/fen" && c.find(t[0], t[1], t[2]) == nil {
+			continue // a field reader merged into Decode, which is in the list
+		}
 		if f := c.fn("R19-index", t[0], t[1], t[2]); f != nil {
 			fns = append(fns, f)
 		}
